@@ -396,7 +396,10 @@ func (w *World) Tick(sid int) {
 	sort.Ints(ids)
 	for _, c := range ids {
 		if cs := w.conns[c]; cs != nil {
-			cs.v.PumpFrame()
+			if cs.v.PumpFrame() {
+				// which connections this session's frame reached: they must be its members, all of them
+				w.canon.Extra = append(w.canon.Extra, fmt.Sprintf("pumped %d", c))
+			}
 		}
 	}
 	w.finishEvent("ok")
